@@ -15,7 +15,7 @@ EXPECT = {
     "ackq": "resolved-twice=0 unresolved=0",
     "tries": "missing-in-subscription-index=0 missing-in-retained-store=0",
     "dist": "sessions-missing=0 subscriptions-missing=0 retained-missing=0 replica-sessions-missing=0 replica-subscriptions-missing=0 replica-retained-missing=0 same-key-writers-diverged=0",
-    "registry": "registry-missing=0 leftover-filters=0",
+    "registry": "registry-missing=0 leftover-filters=0 contended-imbalance=0",
     "hotkey": "same-key-writers-diverged=0",
 }
 
